@@ -79,6 +79,121 @@ fn model_step(w: &World, cache: &mut Vec<usize>, l: &Letter) {
     }
 }
 
+/// Execute one `add_command` sequence from an empty cache on replica `r`, checking every step
+/// from `check_from` on against the invariants and the documented effect.
+#[allow(clippy::too_many_arguments)]
+fn exec_letters(w: &World, r: &mut rtlib::replica::MemReplica, label: &str, layout: Layout, letters: &[Letter], check_from: usize, acc: &mut Acc, states: &mut HashSet<u64>) {
+    let mut cache = PeerCache::new();
+    let mut model: Vec<usize> = Vec::new();
+    for (step, l) in letters.iter().enumerate() {
+        let before: Vec<usize> = model.clone();
+        let res = {
+            let storage = r.client.provider().get_storage(w.graph).unwrap_or_else(|e| mcx::machinery_error(&format!("C20 get_storage: {e}")));
+            cache.add_command(&*storage, address_of(w, l), &mut r.buffers.traversal.primary)
+        };
+        model_step(w, &mut model, l);
+        if step < check_from {
+            // judged when it was the last step of a shorter sequence; keep the model aligned
+            // with the implementation so that later steps are judged on their own
+            if res.is_ok() {
+                let real: Vec<usize> = cache.heads().iter().filter_map(|h| w.idx_of.get(&h.id).copied()).collect();
+                if real.len() == cache.heads().len() {
+                    model = real;
+                }
+            }
+            continue;
+        }
+        acc.count("transitions", 1);
+        let show_seq = || letters[..=step].iter().map(|l| l.show()).collect::<Vec<_>>().join(" ");
+        let mk = |clause_desc: String| Case {
+            rank: (w.n(), step + 1, 0),
+            case: format!("{label} seq=[{}]", show_seq()),
+            desc: format!("{label}: after add_command sequence [{}]: {clause_desc}", show_seq()),
+            replay: json!({"dag": dag_to_json(&w.dag), "label": w.label, "layout": layout.tag(), "sequence": letters[..=step].iter().map(|l| l.show()).collect::<Vec<_>>() }),
+            fixed_key: false,
+        };
+        if let Err(e) = res {
+            acc.fault("add-command-error", mk(format!("add_command returned {e}")));
+            break;
+        }
+        // what the real cache holds
+        let mut real: Vec<usize> = Vec::new();
+        let mut bad = false;
+        for h in cache.heads() {
+            match w.idx_of.get(&h.id) {
+                Some(&i) if w.max_cuts[i] == h.max_cut.get() => real.push(i),
+                _ => {
+                    acc.fault("uncommitted-entry", mk(format!("entry {:02x}..@{} is not a command committed in the local graph", h.id.as_bytes()[0], h.max_cut)));
+                    bad = true;
+                }
+            }
+        }
+        if bad {
+            break;
+        }
+        states.insert(mcx::fnv64(format!("{label}|{real:?}").as_bytes()));
+        if real.len() > PEER_HEAD_MAX {
+            acc.fault("too-many-entries", mk(format!("{} entries", real.len())));
+        }
+        for (a, &x) in real.iter().enumerate() {
+            for &y in &real[a + 1..] {
+                if w.comparable(x, y) {
+                    acc.fault("comparable-entries", mk(format!("entries {} and {} are not incomparable", node_name(x), node_name(y))));
+                }
+            }
+        }
+        // step effect
+        let removed: Vec<usize> = before.iter().copied().filter(|e| !real.contains(e)).collect();
+        let class = match l {
+            Letter::Committed(x) => {
+                if before.iter().any(|&e| e == *x) {
+                    "equal-to-entry"
+                } else if before.iter().any(|&e| w.anc[e].has(*x)) {
+                    "ancestor-of-entry"
+                } else if before.iter().any(|&e| w.anc[*x].has(e)) {
+                    if before.len() == PEER_HEAD_MAX { "descendant-of-entry(full)" } else { "descendant-of-entry" }
+                } else if before.len() == PEER_HEAD_MAX {
+                    "unrelated(full)"
+                } else {
+                    "unrelated"
+                }
+            }
+            Letter::Uncommitted => "uncommitted",
+            Letter::BogusId => "unknown-id",
+            Letter::BogusCut(..) => "wrong-max-cut",
+        };
+        acc.outcome(class, 1);
+        if class.ends_with("(full)") {
+            acc.count("steps_on_full_cache", 1);
+        }
+        match l {
+            Letter::Committed(x) => {
+                for &e in &removed {
+                    if !w.anc[*x].has(e) {
+                        acc.fault("removed-non-ancestor", mk(format!("recording {} removed entry {} which is not its ancestor", node_name(*x), node_name(e))));
+                    }
+                }
+                if (class == "equal-to-entry" || class == "ancestor-of-entry") && real != before {
+                    acc.fault("ancestor-changed-cache", mk(format!("recording {} (equal to / ancestor of an entry) changed the cache from {:?} to {:?}", node_name(*x), names(&before), names(&real))));
+                }
+            }
+            _ => {
+                if real != before {
+                    acc.fault("uncommitted-changed-cache", mk(format!("recording {} changed the cache from {:?} to {:?}", l.show(), names(&before), names(&real))));
+                }
+            }
+        }
+        let (mut ms, mut rs) = (model.clone(), real.clone());
+        ms.sort();
+        rs.sort();
+        if ms != rs {
+            acc.fault("effect-differs-from-model", mk(format!("cache holds {:?}, the documented effect gives {:?}", names(&real), names(&model))));
+        }
+        // keep the model aligned with the implementation so later steps are judged on their own
+        model = real;
+    }
+}
+
 fn run_setup(s: &Setup<'_>, acc: &mut Acc, states: &mut HashSet<u64>) {
     let w = s.w;
     let mut r = build(w, &w.full(), s.layout).unwrap_or_else(|e| mcx::machinery_error(&format!("C20 build: {e}")));
@@ -95,116 +210,8 @@ fn run_setup(s: &Setup<'_>, acc: &mut Acc, states: &mut HashSet<u64>) {
         // execute `prefill ++ seq`, checking the last step in full (earlier steps were checked
         // when they were the last step of a shorter sequence) — prefill steps are checked once
         let check_from = if seq.is_empty() { 0 } else { s.prefill.len() + seq.len() - 1 };
-        let mut cache = PeerCache::new();
-        let mut model: Vec<usize> = Vec::new();
         let letters: Vec<Letter> = s.prefill.iter().map(|&i| Letter::Committed(i)).chain(seq.iter().map(|&i| s.alphabet[i].clone())).collect();
-        for (step, l) in letters.iter().enumerate() {
-            let before: Vec<usize> = model.clone();
-            let res = {
-                let storage = r.client.provider().get_storage(w.graph).unwrap_or_else(|e| mcx::machinery_error(&format!("C20 get_storage: {e}")));
-                cache.add_command(&*storage, address_of(w, l), &mut r.buffers.traversal.primary)
-            };
-            model_step(w, &mut model, l);
-            if step < check_from {
-                // judged when it was the last step of a shorter sequence; keep the model aligned
-                // with the implementation so that later steps are judged on their own
-                if res.is_ok() {
-                    let real: Vec<usize> = cache.heads().iter().filter_map(|h| w.idx_of.get(&h.id).copied()).collect();
-                    if real.len() == cache.heads().len() {
-                        model = real;
-                    }
-                }
-                continue;
-            }
-            acc.count("transitions", 1);
-            let show_seq = || letters[..=step].iter().map(|l| l.show()).collect::<Vec<_>>().join(" ");
-            let mk = |clause_desc: String| Case {
-                rank: (w.n(), step + 1, 0),
-                case: format!("{label} seq=[{}]", show_seq()),
-                desc: format!("{label}: after add_command sequence [{}]: {clause_desc}", show_seq()),
-                replay: json!({"dag": dag_to_json(&w.dag), "label": w.label, "layout": s.layout.tag(), "sequence": letters[..=step].iter().map(|l| l.show()).collect::<Vec<_>>() }),
-                fixed_key: false,
-            };
-            if let Err(e) = res {
-                acc.fault("add-command-error", mk(format!("add_command returned {e}")));
-                break;
-            }
-            // what the real cache holds
-            let mut real: Vec<usize> = Vec::new();
-            let mut bad = false;
-            for h in cache.heads() {
-                match w.idx_of.get(&h.id) {
-                    Some(&i) if w.max_cuts[i] == h.max_cut.get() => real.push(i),
-                    _ => {
-                        acc.fault("uncommitted-entry", mk(format!("entry {:02x}..@{} is not a command committed in the local graph", h.id.as_bytes()[0], h.max_cut)));
-                        bad = true;
-                    }
-                }
-            }
-            if bad {
-                break;
-            }
-            states.insert(mcx::fnv64(format!("{label}|{real:?}").as_bytes()));
-            if real.len() > PEER_HEAD_MAX {
-                acc.fault("too-many-entries", mk(format!("{} entries", real.len())));
-            }
-            for (a, &x) in real.iter().enumerate() {
-                for &y in &real[a + 1..] {
-                    if w.comparable(x, y) {
-                        acc.fault("comparable-entries", mk(format!("entries {} and {} are not incomparable", node_name(x), node_name(y))));
-                    }
-                }
-            }
-            // step effect
-            let removed: Vec<usize> = before.iter().copied().filter(|e| !real.contains(e)).collect();
-            let class = match l {
-                Letter::Committed(x) => {
-                    if before.iter().any(|&e| e == *x) {
-                        "equal-to-entry"
-                    } else if before.iter().any(|&e| w.anc[e].has(*x)) {
-                        "ancestor-of-entry"
-                    } else if before.iter().any(|&e| w.anc[*x].has(e)) {
-                        if before.len() == PEER_HEAD_MAX { "descendant-of-entry(full)" } else { "descendant-of-entry" }
-                    } else if before.len() == PEER_HEAD_MAX {
-                        "unrelated(full)"
-                    } else {
-                        "unrelated"
-                    }
-                }
-                Letter::Uncommitted => "uncommitted",
-                Letter::BogusId => "unknown-id",
-                Letter::BogusCut(..) => "wrong-max-cut",
-            };
-            acc.outcome(class, 1);
-            if class.ends_with("(full)") {
-                acc.count("steps_on_full_cache", 1);
-            }
-            match l {
-                Letter::Committed(x) => {
-                    for &e in &removed {
-                        if !w.anc[*x].has(e) {
-                            acc.fault("removed-non-ancestor", mk(format!("recording {} removed entry {} which is not its ancestor", node_name(*x), node_name(e))));
-                        }
-                    }
-                    if (class == "equal-to-entry" || class == "ancestor-of-entry") && real != before {
-                        acc.fault("ancestor-changed-cache", mk(format!("recording {} (equal to / ancestor of an entry) changed the cache from {:?} to {:?}", node_name(*x), names(&before), names(&real))));
-                    }
-                }
-                _ => {
-                    if real != before {
-                        acc.fault("uncommitted-changed-cache", mk(format!("recording {} changed the cache from {:?} to {:?}", l.show(), names(&before), names(&real))));
-                    }
-                }
-            }
-            let (mut ms, mut rs) = (model.clone(), real.clone());
-            ms.sort();
-            rs.sort();
-            if ms != rs {
-                acc.fault("effect-differs-from-model", mk(format!("cache holds {:?}, the documented effect gives {:?}", names(&real), names(&model))));
-            }
-            // keep the model aligned with the implementation so later steps are judged on their own
-            model = real;
-        }
+        exec_letters(w, &mut r, &label, s.layout, &letters, check_from, acc, states);
         acc.count("executions", 1);
         // next sequence (DFS order: extend, else increment, else backtrack)
         if seq.len() < s.depth {
@@ -224,6 +231,98 @@ fn run_setup(s: &Setup<'_>, acc: &mut Acc, states: &mut HashSet<u64>) {
                 }
             }
         }
+    }
+}
+
+/// Merge-tree shapes over `k` branch tips (indices into the tip list).
+#[derive(Clone, Debug)]
+enum Tree {
+    Leaf(usize),
+    Join(Box<Tree>, Box<Tree>),
+}
+
+fn merge_shapes(k: usize) -> Vec<(&'static str, Tree)> {
+    use Tree::*;
+    let l = |i| Box::new(Leaf(i));
+    let j = |a: Box<Tree>, b: Box<Tree>| Box::new(Join(a, b));
+    match k {
+        3 => vec![("((01)2)", *j(j(l(0), l(1)), l(2))), ("((02)1)", *j(j(l(0), l(2)), l(1))), ("((12)0)", *j(j(l(1), l(2)), l(0)))],
+        4 => vec![("(((01)2)3)", *j(j(j(l(0), l(1)), l(2)), l(3))), ("((01)(23))", *j(j(l(0), l(1)), j(l(2), l(3))))],
+        5 => vec![
+            ("((((01)2)3)4)", *j(j(j(j(l(0), l(1)), l(2)), l(3)), l(4))),
+            ("(((01)(23))4)", *j(j(j(l(0), l(1)), j(l(2), l(3))), l(4))),
+            ("(((01)2)(34))", *j(j(j(l(0), l(1)), l(2)), j(l(3), l(4)))),
+        ],
+        _ => vec![],
+    }
+}
+
+/// `k` concurrent branches of `len` commands from init, one unrelated extra branch, the branch
+/// tips joined by nested merges of the given shape, and a child on top of the last merge.
+struct MergeFamily {
+    w: World,
+    tips: Vec<usize>,
+    extra: usize,
+    top: usize,
+    child: usize,
+}
+
+fn merge_family(k: usize, len: usize, shape_name: &str, shape: &Tree, descending: bool) -> MergeFamily {
+    use rtlib::dag::{Dag, Kind, Node};
+    let mut nodes = vec![Node { kind: Kind::Init, parents: vec![], rank: crate::world::RANK_INIT, prog: vec![Op::Append] }];
+    let mut tips = Vec::new();
+    for b in 0..k {
+        let rank = if descending { 0x70 - 0x10 * b as u8 } else { 0x10 + 0x10 * b as u8 };
+        for j in 0..len {
+            let parent = if j == 0 { 0 } else { nodes.len() - 1 };
+            nodes.push(Node { kind: Kind::Basic(0), parents: vec![parent], rank, prog: vec![Op::Append] });
+        }
+        tips.push(nodes.len() - 1);
+    }
+    nodes.push(Node { kind: Kind::Basic(0), parents: vec![0], rank: 0x80, prog: vec![Op::Append] });
+    let extra = nodes.len() - 1;
+    fn lay(t: &Tree, tips: &[usize], nodes: &mut Vec<rtlib::dag::Node>) -> usize {
+        match t {
+            Tree::Leaf(i) => tips[*i],
+            Tree::Join(a, b) => {
+                let (x, y) = (lay(a, tips, nodes), lay(b, tips, nodes));
+                nodes.push(rtlib::dag::Node { kind: rtlib::dag::Kind::Merge, parents: vec![x.min(y), x.max(y)], rank: 0, prog: vec![] });
+                nodes.len() - 1
+            }
+        }
+    }
+    let top = lay(shape, &tips, &mut nodes);
+    nodes.push(Node { kind: Kind::Basic(0), parents: vec![top], rank: 0x90, prog: vec![Op::Append] });
+    let child = nodes.len() - 1;
+    let dag = Dag { nodes, merge_rank: MergeRank::Low };
+    let w = World::new(dag, format!("merges{k}x{len}{shape_name}{}", if descending { "desc" } else { "asc" }));
+    MergeFamily { w, tips, extra, top, child }
+}
+
+/// Every order of recording the branch tips, optionally one unrelated head in every position,
+/// followed by the top merge, its child, or both; every step is checked in full.
+fn run_merge_family(f: &MergeFamily, acc: &mut Acc, states: &mut HashSet<u64>) {
+    let w = &f.w;
+    for layout in [Layout::Coarse, Layout::Fine] {
+        let mut r = build(w, &w.full(), layout).unwrap_or_else(|e| mcx::machinery_error(&format!("C20 merge family build {}: {e}", w.label)));
+        let label = format!("{} {}", w.label, layout.tag());
+        let k = f.tips.len();
+        let finals: [&[usize]; 3] = [&[f.top], &[f.child], &[f.top, f.child]];
+        mcx::enumerate::permutations(k, |perm| {
+            for extra_pos in 0..=k + 1 {
+                for fin in finals {
+                    let mut seq: Vec<usize> = perm.iter().map(|&i| f.tips[i]).collect();
+                    if extra_pos <= k {
+                        seq.insert(extra_pos, f.extra);
+                    }
+                    seq.extend_from_slice(fin);
+                    let letters: Vec<Letter> = seq.iter().map(|&i| Letter::Committed(i)).collect();
+                    exec_letters(w, &mut r, &label, layout, &letters, 0, acc, states);
+                    acc.count("executions", 1);
+                    acc.count("merge_family_sequences", 1);
+                }
+            }
+        });
     }
 }
 
@@ -276,12 +375,34 @@ pub fn run(args: &Args) {
             (acc, states.len() as u64)
         })
         .collect();
+    // nested-merge families: a recorded command with k >= 3 ancestors already in the cache
+    let mut families = Vec::new();
+    for k in 3..=args.tier.pick(4, 5) {
+        for len in [1usize, 2] {
+            for (name, shape) in merge_shapes(k) {
+                for descending in [false, true] {
+                    families.push(merge_family(k, len, name, &shape, descending));
+                }
+            }
+        }
+    }
+    rep.set("merge_families", families.len() as u64);
+    let fam_results: Vec<(Acc, u64)> = families
+        .par_iter()
+        .map(|f| {
+            let mut acc = Acc::default();
+            let mut states = HashSet::new();
+            run_merge_family(f, &mut acc, &mut states);
+            (acc, states.len() as u64)
+        })
+        .collect();
     let mut acc = Acc::default();
     let mut states = 0;
-    for (a, s) in results {
+    for (a, s) in results.into_iter().chain(fam_results) {
         acc.absorb(a);
         states += s;
     }
+    acc.sample(json!({"merge families": "k = 3..4 (thorough 5) concurrent branches of 1-2 commands joined by nested merges (3 labelled shapes for k=3, caterpillar and balanced for k=4, 3 shapes for k=5), a child on top, one unrelated branch; id order ascending and descending; every order of recording the k tips, the unrelated head absent or in every position, then the top merge, its child, or both"}));
     acc.sample(json!({"alphabet": "every committed address, one flushed-but-uncommitted address, one unknown id, newest command's id with max cut +1 / -1", "fans": "12 branches x {1,2} commands, caches pre-filled with 9 and 10 entries through add_command"}));
     acc.into_report(&mut rep);
     rep.set("states", states);
@@ -293,6 +414,7 @@ pub fn run(args: &Args) {
     // vacuity guards apply to clean runs only: a run that found violations is not vacuous
     if rep.violations().is_empty() {
         rep.require_nonzero("steps_on_full_cache");
+        rep.require_nonzero("steps_superseding_3_or_more_entries");
     }
     rep.finish()
 }
